@@ -1,12 +1,12 @@
-\* behaviour generator (use with -simulate): as coded, replayable interleavings
+\* behaviour generator with a small threshold (see KeyOfSetCache_CexL.cfg)
 SPECIFICATION Spec
 CONSTANTS
-  Keys = {0, 1}
+  Keys = {0}
   Elems = {1, 2, 3}
   Clients = {1, 2}
   MaxBatches = 4
   MaxOps = 6
-  T = 9
+  T = 2
   LostInsert = TRUE
   FlushMax = TRUE
   FoldCancel = TRUE
